@@ -62,6 +62,7 @@ let dispatch (t : Stdlib.String.t array) : Stdlib.String.t =
   | "extract" -> Streamops.extract !profile_ref t
   | "inject" -> Streamops.inject !profile_ref t
   | "edit" -> Editops.edit_op !profile_ref t
+  | "export" -> Editops.export_op !profile_ref t
   | "mux" -> Streamops.mux_op !profile_ref t
   | "muxspec" -> Streamops.muxspec_op !profile_ref t
   | "seidrop" -> Streamops.seidrop t
